@@ -12,10 +12,24 @@ open Larking Larking.Negotiate
 theorem translator_complete : Gen.missing = [] := by decide
 
 theorem skeleton_unchanged :
-    (Gen.Skel.conds_parseAccept, Gen.Skel.conds_expectQuality, Gen.Skel.conds_negotiateContentType,
-     Gen.Skel.conds_negotiateContentEncoding, Gen.Skel.conds_streamHTTP_SendMsg, Gen.Skel.conds_streamHTTP_writeMsg)
-  = (Expected.C04.conds_parseAccept, Expected.C04.conds_expectQuality, Expected.C04.conds_negotiateContentType,
-     Expected.C04.conds_negotiateContentEncoding, Expected.C04.conds_streamHTTP_SendMsg, Expected.C04.conds_streamHTTP_writeMsg) := rfl
+    (Gen.Skel.conds_parseAccept,
+     Gen.Skel.conds_expectQuality,
+     Gen.Skel.conds_negotiateContentType,
+     Gen.Skel.conds_negotiateContentEncoding,
+     Gen.Skel.conds_streamHTTP_SendMsg,
+     Gen.Skel.stmts_streamHTTP_SendMsg,
+     Gen.Skel.conds_streamHTTP_writeMsg,
+     Gen.Skel.conds_NewMux,
+     Gen.Skel.stmts_NewMux)
+  = (Expected.C04.conds_parseAccept,
+     Expected.C04.conds_expectQuality,
+     Expected.C04.conds_negotiateContentType,
+     Expected.C04.conds_negotiateContentEncoding,
+     Expected.C04.conds_streamHTTP_SendMsg,
+     Expected.C04.stmts_streamHTTP_SendMsg,
+     Expected.C04.conds_streamHTTP_writeMsg,
+     Expected.C04.conds_NewMux,
+     Expected.C04.stmts_NewMux) := rfl
 
 /-- the response type is the request's own (the default) or a registered type that an Accept
 range with q ≠ 0 admits — for every Accept header whatsoever (any bytes, any number of
